@@ -57,7 +57,10 @@ def aObs (a : ASt) : String :=
 def stObsQuiet (s : St) : String := s!"{s.connected},{s.running}|{viewStr s.procs}|{byPidStr s.byPid}"
 def aObsQuiet (a : ASt) : String := s!"{aConnected a},{aRunning a}|{viewStr a.procs}|{byPidStr (aByPid a.procs)}"
 
-/-- Impl trace, Spec trace (`none` once the protocol is left), first region hit. -/
+/-- Impl trace, Spec trace (`none` once the protocol is left), first region hit.
+`regionName` knows `remove_during_query` and `ready_during_operation` only: F-C37-a
+(`begin_query_error_path`) was repaired (`Gms.C37.beginQuery_refines`), so a history whose only
+departure from the Spec is a failed `BeginQuery` gets region "-" and is a violation again. -/
 partial def runBoth (s : St) (a : Option ASt) (region : String) (es : List Ev)
     (accI accS : List String) : (St × Option ASt × String × List String × List String) :=
   match es with
